@@ -67,6 +67,94 @@ theorem close_err_after_cfault (hr : cfg.repaired = true) {tr : List Ev} (h : Ru
     simp [hc] at this
   · exact hk
 
+/-! ### how many blocks have been submitted when a call returns nil -/
+
+/-- a call that returns nil owes no more blocks and has seen a clear latch -/
+theorem ret_ok_pcRem {l : Label} {ev : Ev} {op : Op} {m : Nat}
+    (h : next cfg s l = some (some ev, t)) (hev : ev = .ret op .ok m) : pcRem s.api = 0 ∧ s.err = false := by
+  refine next_cases h ?_ ?_ ?_ ?_
+  · intro h
+    unfold apiStep at h
+    step_cases h
+    all_goals first
+      | (simp at hev; done)
+      | (simp only [Ev.ret.injEq] at hev
+         obtain ⟨h1, h2, h3⟩ := hev
+         simp_all [pcRem, resOf])
+  · intro h
+    unfold emStep at h
+    step_cases h
+    all_goals simp at hev
+  · intro i q _ he; simp at he
+  · intro it _ _ he; simp at he
+
+/-- When the `(j+1)`-th call to return returns nil and no `Close` is among the first `j+1` calls of the script,
+    the number of blocks submitted so far is exactly what those `j+1` calls owe. -/
+theorem ret_ok_count (hr : cfg.repaired = true) {tr : List Ev} (h : Run cfg tr s) :
+    ∀ {post mid : List Ev} {op : Op} {m j : Nat}, tr = post ++ .ret op .ok m :: mid → nrets mid = j →
+      hasClose (cfg.script.take (j + 1)) = false → m = seqBlocks (cfg.script.take (j + 1)) false := by
+  induction h with
+  | init => intro post mid op m j h; simp at h
+  | @step tr0 s0 l e t0 hrun hn ih =>
+    intro post mid op m j htr hnr hnc
+    cases e with
+    | none => exact ih (by simpa using htr) hnr hnc
+    | some ev =>
+      simp only [Option.toList_some, List.singleton_append] at htr
+      cases post with
+      | cons x post =>
+        simp only [List.cons_append, List.cons.injEq] at htr
+        exact ih htr.2 hnr hnc
+      | nil =>
+        simp only [List.nil_append, List.cons.injEq] at htr
+        obtain ⟨hev, hmid⟩ := htr
+        subst hmid
+        obtain ⟨hi, -⟩ := run_inv hr hrun
+        have hp := run_pos hrun
+        have ha := run_acc hrun
+        have hni : s0.api ≠ .idle := by subst hev; exact ret_not_idle hn
+        obtain ⟨h1, -, -, -, -, -, -, -, -, -, -, -, -, -⟩ := ret_step hi hn hev
+        obtain ⟨hpc, herr⟩ := ret_ok_pcRem hn hev
+        have hnc' : ncalls tr0 = j + 1 := by
+          have := hp.bal
+          simp only [hni, if_false] at this
+          omega
+        have hnotc : restClosed s0 = false := by
+          cases hc : restClosed s0 with
+          | false => rfl
+          | true =>
+            have := hp.closedBy hc
+            rw [hnc'] at this
+            have hh : hasClose (cfg.script.take (j + 1)) = true := by
+              simp only [hasClose]; simpa using this
+            rw [hh] at hnc; cases hnc
+        have hb := ha.blocks herr
+        rw [hp.script, hnc', hnotc, hpc] at hb
+        -- split the script at j+1
+        have hsplit : seqBlocks cfg.script false =
+            seqBlocks (cfg.script.take (j + 1)) false + seqBlocks (cfg.script.drop (j + 1)) false := by
+          have : ∀ (a b : List Op), hasClose a = false →
+              seqBlocks (a ++ b) false = seqBlocks a false + seqBlocks b false := by
+            intro a
+            induction a with
+            | nil => intro b _; simp [seqBlocks]
+            | cons o a iha =>
+              intro b hcl
+              cases o with
+              | close => simp [hasClose] at hcl
+              | write k =>
+                have : hasClose a = false := by simpa [hasClose] using hcl
+                simp only [List.cons_append, seqBlocks, iha b this]; omega
+              | flush f =>
+                have : hasClose a = false := by simpa [hasClose] using hcl
+                simp only [List.cons_append, seqBlocks, iha b this]; omega
+              | wait =>
+                have : hasClose a = false := by simpa [hasClose] using hcl
+                simp only [List.cons_append, seqBlocks, iha b this]
+          have := this (cfg.script.take (j + 1)) (cfg.script.drop (j + 1)) hnc
+          rwa [List.take_append_drop] at this
+        omega
+
 /-! ### whatever fails, no more blocks are submitted than the script owes -/
 
 def SubLe (cfg : Cfg) (s : State) : Prop :=
